@@ -457,6 +457,7 @@ static void c15(long long seedv) {
 // ZonedDateTime print/parse for every zone name of both registries
 static void c15_zones() {
   static BasicZoneProcessor bp; static ExtendedZoneProcessor xp;
+  ZonedDateTime prevZ; std::string prevName, prevText; bool havePrev = false;
   for (int kind = 0; kind < 2; kind++) {
     uint16_t n = kind ? zonedbx::kZoneRegistrySize : zonedb::kZoneRegistrySize;
     for (uint16_t i = 0; i < n; i++) {
@@ -481,7 +482,23 @@ static void c15_zones() {
       size_t slash = name.rfind('/');
       std::string wantShort = slash == std::string::npos ? name : name.substr(slash + 1);
       if (ps.buf != wantShort) { J j; j.str("zone", name).str("got", ps.buf); witness("c15:tz-shortname", "printShortTo is not the last path component", j); }
+      // a zoned date-time of the PREVIOUS zone, printed now that the shared processor has worked for this zone,
+      // must still carry the previous zone's name (the value, not the processor, decides what is printed)
+      if (havePrev) {
+        StrPrint pp; prevZ.printTo(pp);
+        CNT.add("c15.zdt_zone_after_processor_rebound");
+        if (pp.buf != prevText) { J j; j.str("zone", prevName).str("processor_last_used_for", name).str("want", prevText).str("got", pp.buf); witness("c15:zdt-print-names-other-zone", "a ZonedDateTime printed after its processor served another zone does not carry its own zone name", j); }
+        StrPrint pq; prevZ.timeZone().printShortTo(pq);
+        size_t sl = prevName.rfind('/');
+        if (pq.buf != (sl == std::string::npos ? prevName : prevName.substr(sl + 1))) { J j; j.str("zone", prevName).str("got", pq.buf); witness("c15:zdt-print-names-other-zone", "printShortTo after the processor served another zone names the other zone", j); }
+      }
+      {
+        // recompute this zone last so that the processor is bound to it when the next zone starts
+        prevZ = ZonedDateTime::forEpochSeconds(646000000, tz); prevName = name; havePrev = true;
+        StrPrint pt; prevZ.printTo(pt); prevText = pt.buf;
+      }
     }
+    havePrev = false;
   }
   // manual zones
   for (int std = -960; std <= 960; std += 15) for (int dst : {0, 60, 30, -60}) {
